@@ -288,15 +288,30 @@ class Inliner:
                         if isinstance(st, ast.FunctionDef) and st.name == imp[1]:
                             return self._foreign(st, other), False
             elif f.id not in self.exclude and self.sf is not None:
+                # a small public helper defined in this module (`encode_midi_in(always, channel)`): at most three statements, straight-line
+                own = self._module_functions().get(f.id)
+                if own is not None and not own.decorator_list and len(_body(own)) <= 5 and not _is_generator(own) \
+                        and not any(isinstance(n, (ast.With, ast.Try, ast.For, ast.While, ast.Global, ast.Nonlocal)) for n in ast.walk(own)):
+                    return own, False
                 # a small public helper of the package imported by name (`decode_cstring(data)`): at most three statements, no decorators
                 imp = self.sf.imports.get(f.id)
                 if imp and imp[1] and imp[0] in self.repo.by_mod and imp[0].startswith("rv."):
                     other = self.repo.by_mod[imp[0]]
                     for st in other.tree.body:
-                        if isinstance(st, ast.FunctionDef) and st.name == imp[1] and not st.decorator_list and len(_body(st)) <= 3 \
+                        if isinstance(st, ast.FunctionDef) and st.name == imp[1] and not st.decorator_list and len(_body(st)) <= 5 \
                                 and not _is_generator(st) and not any(isinstance(n, (ast.With, ast.Try, ast.For, ast.While, ast.Global)) for n in ast.walk(st)):
                             return self._foreign(st, other), False
             return None
+        if isinstance(f, ast.Attribute) and not f.attr.startswith("__") and isinstance(f.value, (ast.Name, ast.Attribute)) \
+                and norm(f.value) not in self.receivers and norm(f.value) not in ("self", "cls") and f.attr not in self.exclude:
+            # a method of a record constant (`_LEVEL = _BitField(shift=0, mask=31)` at class / module level, NamedTuple or dataclass with
+            # small methods): `self._LEVEL.extract(w)` / `field = self._LEVEL; field.extract(w)` reads as the method's body
+            k = self._record_class_of(f.value)
+            if k is not None and f.attr in k.methods and not _decos(k.methods[f.attr]) and not _is_generator(k.methods[f.attr]):
+                fn = k.methods[f.attr]
+                if self.sf is not None and k.file is not self.sf:
+                    fn = self._foreign(fn, k.file)
+                return fn, True
         if isinstance(f, ast.Attribute) and norm(f.value) in self.receivers:
             # a method of another object whose class is known to the caller of the inliner (the module in a project's loop)
             k = self.receivers[norm(f.value)]
@@ -316,8 +331,15 @@ class Inliner:
             d = _decos(fn)
             if "staticmethod" in d:
                 return fn, False
-            if not _is_generator(fn) and not _is_private(name):
-                return None                  # public non-generator methods of the other object stay calls
+            if not _is_generator(fn) and not _is_private(name) and name not in self.also:
+                # public non-generator methods of the other object stay calls, except a small straight-line one that is used as a
+                # statement (`self.drawn_waveform.load_module_chunk(chunk)`): a loader the other class keeps for its owner
+                small = len(_body(fn)) <= 4 and not d and not any(isinstance(n, (ast.With, ast.Try, ast.For, ast.While, ast.Global, ast.Return, ast.If))
+                                                                  for n in ast.walk(fn))
+                if not small:
+                    return None
+            if self.sf is not None and owner.file is not self.sf:
+                fn = self._foreign(fn, owner.file)
             return fn, True
         if isinstance(f, ast.Attribute) and self.ci is not None:
             name = f.attr
@@ -351,6 +373,14 @@ class Inliner:
             return fn, True
         return None
 
+    def _record_class_of(self, e: ast.expr) -> Optional[ClassInfo]:
+        """The record class (NamedTuple / dataclass with annotated fields) of which `e` — a class-level or module-level constant, or a
+        local bound once to one — is an instance built with constant arguments."""
+        ctor = record_constant(self.repo, self.ci, self.sf, e, getattr(self, "_root", None))
+        if ctor is None:
+            return None
+        return self.repo.class_of_expr(ctor.func, self.ci, self.sf)
+
     def _foreign(self, fn: ast.FunctionDef, other: SourceFile) -> ast.FunctionDef:
         """A helper of another module, with that module's struct constants and foldable module-level names written in (they
         would not resolve in the caller's module)."""
@@ -364,6 +394,30 @@ class Inliner:
             new = copy.deepcopy(fn)
         bound = {a.arg for a in new.args.args} | {n.id for n in ast.walk(new) if isinstance(n, ast.Name) and isinstance(n.ctx, (ast.Store, ast.Del))}
         repo = self.repo
+        # pure one-expression functions of that module called by name are written out (their names mean nothing to the caller)
+        mod_fns = {st.name: st for st in other.tree.body if isinstance(st, ast.FunctionDef) and not st.decorator_list and not _is_generator(st)}
+        outer = self
+        depth_left = self.__dict__.get("_foreign_depth", 0)
+
+        class F(ast.NodeTransformer):
+            def visit_Call(self, node):
+                node = self.generic_visit(node)
+                if isinstance(node.func, ast.Name) and node.func.id in mod_fns and node.func.id not in bound and node.func.id != fn.name \
+                        and not node.keywords and not any(isinstance(a, ast.Starred) for a in node.args) and depth_left < 3:
+                    callee = mod_fns[node.func.id]
+                    params = [a.arg for a in callee.args.args]
+                    if len(params) == len(node.args) and not callee.args.vararg and not callee.args.kwarg and not callee.args.kwonlyargs \
+                            and all(isinstance(a, (ast.Name, ast.Constant, ast.Attribute)) for a in node.args):
+                        outer.__dict__["_foreign_depth"] = depth_left + 1
+                        try:
+                            e = as_expression(outer._foreign(callee, other))
+                        finally:
+                            outer.__dict__["_foreign_depth"] = depth_left
+                        if e is not None and not any(isinstance(x, (ast.Lambda, ast.ListComp, ast.GeneratorExp, ast.SetComp, ast.DictComp)) for x in ast.walk(e)):
+                            return ast.copy_location(_Rename(dict(zip(params, node.args))).visit(copy.deepcopy(e)), node)
+                return node
+        if mod_fns:
+            new = F().visit(new)
 
         class K(ast.NodeTransformer):
             def visit_Name(self, node):
@@ -608,6 +662,33 @@ class Inliner:
                             return self._block(new, depth - 1) + [tail]
                 except CannotInline:
                     pass
+        # … b"".join(self._gen(...)) … with a private generator helper: the pieces are concatenated into a local first
+        if isinstance(st, (ast.Assign, ast.Expr, ast.Return, ast.AugAssign)) and st.value is not None:
+            joins = [c for c in ast.walk(st.value) if isinstance(c, ast.Call) and isinstance(c.func, ast.Attribute) and c.func.attr == "join"
+                     and isinstance(c.func.value, ast.Constant) and c.func.value.value == b"" and len(c.args) == 1 and not c.keywords
+                     and isinstance(c.args[0], ast.Call)]
+            if len(joins) == 1 and not any(isinstance(x, (ast.Lambda, ast.ListComp, ast.GeneratorExp, ast.SetComp, ast.DictComp, ast.IfExp, ast.BoolOp))
+                                           for x in ast.walk(st.value)):
+                r = self.resolve_call(joins[0].args[0])
+                if r is not None and _is_generator(r[0]):
+                    self.counter += 1
+                    jv, ev = f"__j{self.counter}", f"__e{self.counter}"
+                    init = ast.Assign(targets=[ast.Name(id=jv, ctx=ast.Store())], value=ast.Constant(value=b""))
+                    loop = ast.For(target=ast.Name(id=ev, ctx=ast.Store()), iter=joins[0].args[0],
+                                   body=[ast.AugAssign(target=ast.Name(id=jv, ctx=ast.Store()), op=ast.Add(), value=ast.Name(id=ev, ctx=ast.Load()))], orelse=[])
+                    target_join = joins[0]
+
+                    class J(ast.NodeTransformer):
+                        def visit_Call(self, node):
+                            if node is target_join:
+                                return ast.copy_location(ast.Name(id=jv, ctx=ast.Load()), node)
+                            return self.generic_visit(node)
+                    st2 = copy.copy(st)
+                    st2.value = J().visit(st.value)
+                    for x in (init, loop):
+                        ast.copy_location(x, st)
+                        ast.fix_missing_locations(x)
+                    return self._block([init, loop, st2], depth)
         # X.extend(self._gen(...)) with a private generator helper: one append per generated element
         if isinstance(st, ast.Expr) and isinstance(st.value, ast.Call) and isinstance(st.value.func, ast.Attribute) and st.value.func.attr == "extend" \
                 and len(st.value.args) == 1 and not st.value.keywords and isinstance(st.value.args[0], ast.Call):
@@ -621,6 +702,21 @@ class Inliner:
                 ast.copy_location(loop, st)
                 ast.fix_missing_locations(loop)
                 st = loop
+        # D.update((k, v) for x in XS [if c]): one item store per element of XS
+        if isinstance(st, ast.Expr) and isinstance(st.value, ast.Call) and isinstance(st.value.func, ast.Attribute) and st.value.func.attr == "update" \
+                and len(st.value.args) == 1 and not st.value.keywords and isinstance(st.value.args[0], (ast.GeneratorExp, ast.ListComp)) \
+                and isinstance(st.value.func.value, (ast.Name, ast.Attribute)) and len(st.value.args[0].generators) == 1 \
+                and isinstance(st.value.args[0].elt, ast.Tuple) and len(st.value.args[0].elt.elts) == 2 and not st.value.args[0].generators[0].is_async:
+            comp = st.value.args[0]
+            g0 = comp.generators[0]
+            store = ast.Assign(targets=[ast.Subscript(value=copy.deepcopy(st.value.func.value), slice=comp.elt.elts[0], ctx=ast.Store())], value=comp.elt.elts[1])
+            body: List[ast.stmt] = [store]
+            for cond in reversed(g0.ifs):
+                body = [ast.If(test=cond, body=body, orelse=[])]
+            loop = ast.For(target=g0.target, iter=g0.iter, body=body, orelse=[])
+            ast.copy_location(loop, st)
+            ast.fix_missing_locations(loop)
+            return self._stmt(loop, depth)
         # D.update(self._gen(...)) with a private generator of (key, value) pairs: one item store per generated pair
         if isinstance(st, ast.Expr) and isinstance(st.value, ast.Call) and isinstance(st.value.func, ast.Attribute) and st.value.func.attr == "update" \
                 and len(st.value.args) == 1 and not st.value.keywords and isinstance(st.value.args[0], ast.Call) \
@@ -643,6 +739,8 @@ class Inliner:
             r = self.resolve_call(st.iter)
             if r is not None and _is_generator(r[0]) and any(isinstance(n, ast.Continue) for b in st.body for n in ast.walk(b)):
                 nb = _nest_continues_deep(st.body)
+                if any(isinstance(n, ast.Continue) for b in nb for n in ast.walk(b)):
+                    nb = _eliminate_continues(st.body) or nb
                 if not any(isinstance(n, ast.Continue) for b in nb for n in ast.walk(b)):
                     st = copy.copy(st)
                     st.body = nb
@@ -916,9 +1014,122 @@ class Inliner:
                     out.append(st)
                 return out
             new.body = prune(new.body) or [ast.Pass()]
+        _forward_result_temps(new)
+        _forward_element_temps(new)
         ast.fix_missing_locations(new)
         number(new)
         return new
+
+
+def _forward_element_temps(fn: ast.FunctionDef) -> None:
+    """`__eN = E` directly followed by a simple statement that reads the generated temporary exactly once (`acc += __eN`,
+    `xs.append(__eN)`) reads as that statement with E in place; the temporary is the element variable the inliner made when it
+    read `for e in self._gen(): …` / `b"".join(self._gen())` through."""
+    if not any(isinstance(n, ast.Name) and n.id.startswith("__e") and n.id[3:].isdigit() for n in ast.walk(fn)):
+        return
+
+    def block(stmts: List[ast.stmt]) -> List[ast.stmt]:
+        out: List[ast.stmt] = []
+        i = 0
+        while i < len(stmts):
+            st = stmts[i]
+            nxt = stmts[i + 1] if i + 1 < len(stmts) else None
+            if isinstance(st, ast.Assign) and len(st.targets) == 1 and isinstance(st.targets[0], ast.Name) and st.targets[0].id.startswith("__e") \
+                    and st.targets[0].id[3:].isdigit() and isinstance(nxt, (ast.AugAssign, ast.Expr, ast.Assign)):
+                t = st.targets[0].id
+                uses = [n for n in ast.walk(nxt) if isinstance(n, ast.Name) and n.id == t]
+                later = [n for s2 in stmts[i + 2:] for n in ast.walk(s2) if isinstance(n, ast.Name) and n.id == t]
+                # a later read must be preceded by a new store in this block (the next generated element)
+                later_ok = not later or (isinstance(later[0].ctx, ast.Store))
+                if len(uses) == 1 and isinstance(uses[0].ctx, ast.Load) and later_ok \
+                        and not any(isinstance(x, (ast.Yield, ast.YieldFrom, ast.Await, ast.NamedExpr)) for x in ast.walk(st.value)):
+                    out.append(_Rename({t: st.value}).visit(nxt))
+                    i += 2
+                    continue
+            for fld in ("body", "orelse", "finalbody"):
+                sub = getattr(st, fld, None)
+                if isinstance(sub, list) and sub and isinstance(sub[0], ast.stmt) and not isinstance(st, (ast.FunctionDef, ast.ClassDef)):
+                    setattr(st, fld, block(sub))
+            if isinstance(st, ast.Try):
+                for h in st.handlers:
+                    h.body = block(h.body)
+            out.append(st)
+            i += 1
+        return out
+    fn.body = block(fn.body)
+
+
+def _forward_result_temps(fn: ast.FunctionDef) -> None:
+    """`if c: __retN = A  else: __retN = B` directly followed by `x = __retN` (the only read of the temporary, every store of it the
+    last statement of its branch) reads as `if c: x = A  else: x = B`; an `x = x` left behind is dropped.  This is the shape a
+    caller had before `x = self._helper(x)` with early returns was read through."""
+    loads: Dict[str, int] = {}
+    stores: Dict[str, int] = {}
+    for n in ast.walk(fn):
+        if isinstance(n, ast.Name) and n.id.startswith("__ret"):
+            d = loads if isinstance(n.ctx, ast.Load) else stores
+            d[n.id] = d.get(n.id, 0) + 1
+
+    def tail_stores(stmts: List[ast.stmt], t: str) -> Optional[int]:
+        """number of stores of t in stmts when each is the last statement of its (nested if) block, else None."""
+        n = 0
+        for i, st in enumerate(stmts):
+            is_last = i == len(stmts) - 1
+            if isinstance(st, ast.Assign) and len(st.targets) == 1 and isinstance(st.targets[0], ast.Name) and st.targets[0].id == t:
+                if not is_last:
+                    return None
+                n += 1
+            elif isinstance(st, ast.If) and is_last:
+                a, b = tail_stores(st.body, t), tail_stores(st.orelse, t)
+                if a is None or b is None:
+                    return None
+                n += a + b
+            elif any(isinstance(x, ast.Name) and x.id == t for x in ast.walk(st)):
+                return None
+        return n
+
+    def rename(stmts: List[ast.stmt], t: str, x: ast.expr) -> List[ast.stmt]:
+        out = []
+        for st in stmts:
+            if isinstance(st, ast.Assign) and isinstance(st.targets[0], ast.Name) and st.targets[0].id == t:
+                if norm(st.value) == norm(x):
+                    continue
+                st.targets = [copy.deepcopy(x)]
+            elif isinstance(st, ast.If):
+                st.body = rename(st.body, t, x) or [ast.Pass()]
+                st.orelse = rename(st.orelse, t, x)
+            out.append(st)
+        return out
+
+    def block(stmts: List[ast.stmt]) -> List[ast.stmt]:
+        out: List[ast.stmt] = []
+        i = 0
+        while i < len(stmts):
+            st = stmts[i]
+            nxt = stmts[i + 1] if i + 1 < len(stmts) else None
+            if isinstance(st, ast.If) and isinstance(nxt, ast.Assign) and len(nxt.targets) == 1 and isinstance(nxt.targets[0], ast.Name) \
+                    and isinstance(nxt.value, ast.Name) and nxt.value.id.startswith("__ret") and loads.get(nxt.value.id) == 1:
+                t = nxt.value.id
+                k = tail_stores([st], t)
+                if k is not None and k == stores.get(t) and k >= 1:
+                    x = nxt.targets[0]
+                    x = ast.Name(id=x.id, ctx=ast.Store())
+                    res = rename([st], t, x)
+                    out.extend(res)
+                    i += 2
+                    continue
+            for fld in ("body", "orelse", "finalbody"):
+                sub = getattr(st, fld, None)
+                if isinstance(sub, list) and sub and isinstance(sub[0], ast.stmt) and not isinstance(st, (ast.FunctionDef, ast.ClassDef)):
+                    setattr(st, fld, block(sub) or ([ast.Pass()] if fld == "body" else []))
+            if isinstance(st, ast.Try):
+                for h in st.handlers:
+                    h.body = block(h.body) or [ast.Pass()]
+            out.append(st)
+            i += 1
+        return out
+    if stores:
+        fn.body = block(fn.body) or [ast.Pass()]
 
 
 def number(fn: ast.AST) -> None:
@@ -977,6 +1188,13 @@ def as_expression(fn: ast.FunctionDef) -> Optional[ast.expr]:
                     and len(st.targets[0].elts) == 1 and isinstance(st.targets[0].elts[0], ast.Name) and isinstance(st.value, ast.Call):
                 # (x,) = unpack(F, data)    →   x = unpack(F, data)[0]
                 env[st.targets[0].elts[0].id] = ast.Subscript(value=subst(st.value, env), slice=ast.Constant(value=0), ctx=ast.Load())
+                continue
+            if isinstance(st, ast.Assign) and len(st.targets) == 1 and isinstance(st.targets[0], (ast.Tuple, ast.List)) \
+                    and all(isinstance(t, ast.Name) for t in st.targets[0].elts) and isinstance(st.value, ast.Name):
+                # a, b = pair   →   a = pair[0]; b = pair[1]
+                src = subst(st.value, env)
+                for i_, t in enumerate(st.targets[0].elts):
+                    env[t.id] = ast.Subscript(value=copy.deepcopy(src), slice=ast.Constant(value=i_), ctx=ast.Load())
                 continue
             if isinstance(st, ast.Return) and st.value is not None:
                 return subst(st.value, env)
@@ -1239,6 +1457,68 @@ def _nest_continues_deep(body: List[ast.stmt]) -> List[ast.stmt]:
     return out
 
 
+def _eliminate_continues(body: List[ast.stmt]) -> Optional[List[ast.stmt]]:
+    """A loop body in which every `continue` (at any depth of if/else) is replaced by structure: what follows a branch that
+    continues moves into the other branch.  None when a `continue` sits inside a with/try (or the result would still hold one)."""
+    def has_cont(stmts) -> bool:
+        for st in stmts:
+            if isinstance(st, ast.Continue):
+                return True
+            if isinstance(st, (ast.For, ast.While, ast.FunctionDef, ast.ClassDef)):
+                continue
+            for fld in ("body", "orelse", "finalbody"):
+                if has_cont(getattr(st, fld, None) or []):
+                    return True
+            if any(has_cont(h.body) for h in getattr(st, "handlers", [])):
+                return True
+        return False
+
+    class GiveUp(Exception):
+        pass
+
+    def elim(stmts: List[ast.stmt], budget: List[int]) -> Tuple[List[ast.stmt], bool]:
+        out: List[ast.stmt] = []
+        for i, st in enumerate(stmts):
+            if isinstance(st, ast.Continue):
+                return out, True
+            if isinstance(st, ast.If) and has_cont([st]):
+                b1, c1 = elim(st.body, budget)
+                b2, c2 = elim(st.orelse, budget)
+                rest = stmts[i + 1:]
+                if c1 and c2:
+                    out.append(ast.copy_location(ast.If(test=st.test, body=b1 or [ast.Pass()], orelse=b2), st))
+                    return out, True
+                if c1 or c2:
+                    r, rc = elim(rest, budget)
+                    if c1:
+                        new = ast.If(test=st.test, body=b1 or [ast.Pass()], orelse=b2 + r)
+                    else:
+                        new = ast.If(test=st.test, body=(b1 + r) or [ast.Pass()], orelse=b2)
+                    out.append(ast.copy_location(new, st))
+                    return out, rc
+                # a continue deeper inside one branch: the rest is needed in both
+                budget[0] -= len(rest)
+                if budget[0] < 0:
+                    raise GiveUp()
+                r1, rc1 = elim([copy.deepcopy(x) for x in st.body] + [copy.deepcopy(x) for x in rest], budget)
+                r2, rc2 = elim([copy.deepcopy(x) for x in st.orelse] + [copy.deepcopy(x) for x in rest], budget)
+                out.append(ast.copy_location(ast.If(test=st.test, body=r1 or [ast.Pass()], orelse=r2), st))
+                return out, rc1 and rc2
+            if has_cont([st]):
+                raise GiveUp()
+            out.append(st)
+        return out, False
+    try:
+        res, _ = elim([copy.deepcopy(x) for x in body], [60])
+    except GiveUp:
+        return None
+    if has_cont(res):
+        return None
+    for x in res:
+        ast.fix_missing_locations(x)
+    return res or [ast.Pass()]
+
+
 def _bind_target(target: ast.expr, value: ast.expr) -> Optional[Dict[str, ast.expr]]:
     if isinstance(target, ast.Name):
         return {target.id: value}
@@ -1320,6 +1600,9 @@ def unroll(fn: ast.FunctionDef, repo: Optional[Repo] = None, ci: Optional[ClassI
                     lc = X().visit_ListComp(ast.copy_location(ast.ListComp(elt=node.value.elt, generators=node.value.generators), node.value))
                     if isinstance(lc, (ast.List, ast.Tuple)):
                         node.value = lc
+                elif isinstance(node.value, ast.Name) and node.value.id in env and isinstance(node.ctx, ast.Load):
+                    # `*xs` with xs a list display built in this function: its elements
+                    node.value = ast.copy_location(ast.List(elts=[copy.deepcopy(x) for x in env[node.value.id]], ctx=ast.Load()), node.value)
                 return node
         e = St().visit(e)
         return _splice_starred_displays(_AttrConst().visit(X().visit(e)))
@@ -1492,6 +1775,27 @@ def unroll(fn: ast.FunctionDef, repo: Optional[Repo] = None, ci: Optional[ClassI
                     for p in parts:
                         y = ast.Expr(value=ast.YieldFrom(value=copy.deepcopy(p)))
                         out.append(ast.fix_missing_locations(ast.copy_location(y, st)))
+                    continue
+                if f.split(".")[-1] == "from_iterable" and len(c.args) == 1 and isinstance(c.args[0], (ast.GeneratorExp, ast.ListComp)) \
+                        and len(c.args[0].generators) == 1 and not c.args[0].generators[0].is_async:
+                    # yield from chain.from_iterable(E for T in XS if c)   is   for T in XS: if c: yield from E
+                    g0 = c.args[0].generators[0]
+                    inner: List[ast.stmt] = [ast.Expr(value=ast.YieldFrom(value=c.args[0].elt))]
+                    for cond in reversed(g0.ifs):
+                        inner = [ast.If(test=cond, body=inner, orelse=[])]
+                    loop = ast.For(target=g0.target, iter=g0.iter, body=inner, orelse=[])
+                    ast.copy_location(loop, st)
+                    ast.fix_missing_locations(loop)
+                    out.extend(block([loop], env))
+                    continue
+            # --- a, b, c = (f(k) for k in (K1, K2, K3)): the generated elements, one per target
+            if isinstance(st, ast.Assign) and len(st.targets) == 1 and isinstance(st.targets[0], (ast.Tuple, ast.List)) \
+                    and isinstance(st.value, (ast.GeneratorExp, ast.ListComp)) and not any(isinstance(t, ast.Starred) for t in st.targets[0].elts):
+                lc = expr_unroll(ast.copy_location(ast.ListComp(elt=copy.deepcopy(st.value.elt), generators=copy.deepcopy(st.value.generators)), st.value), env)
+                if isinstance(lc, (ast.List, ast.Tuple)) and len(lc.elts) == len(st.targets[0].elts) and not any(isinstance(x, ast.Starred) for x in lc.elts):
+                    st = copy.copy(st)
+                    st.value = ast.copy_location(ast.Tuple(elts=list(lc.elts), ctx=ast.Load()), st.value)
+                    out.append(ast.fix_missing_locations(st))
                     continue
             # --- list accumulation in straight-line code
             if isinstance(st, ast.Assign) and len(st.targets) == 1 and isinstance(st.targets[0], ast.Name):
@@ -1681,13 +1985,340 @@ def _module_int_constants(repo: Repo, sf: SourceFile) -> Dict[str, int]:
             continue
         if isinstance(v, int) and not isinstance(v, bool):
             out[nm] = v
+        elif isinstance(v, bytes) and len(v) <= 4:
+            out[nm] = v                 # `_NUL = b"\0"`: a named byte string reads as its value too
     _INT_CONSTS[key] = out
     return out
+
+
+def _class_int_constants(repo: Repo, ci: ClassInfo) -> Dict[str, int]:
+    """UPPER_CASE integer constants of the class body (own or inherited) that `self.NAME` / `cls.NAME` can only mean: no subclass
+    rebinds the name and nothing in the package stores to an attribute of that name."""
+    cache = repo.__dict__.setdefault("_class_int_consts", {})
+    key = id(ci)
+    if key in cache:
+        return cache[key]
+    stored = repo.__dict__.get("_stored_attr_names")
+    if stored is None:
+        stored = set()
+        for f in repo.files.values() if isinstance(getattr(repo, "files", None), dict) else []:
+            for n in ast.walk(f.tree):
+                if isinstance(n, ast.Attribute) and isinstance(n.ctx, (ast.Store, ast.Del)):
+                    stored.add(n.attr)
+                elif isinstance(n, ast.Call) and norm(n.func) in ("setattr", "delattr") and len(n.args) >= 2:
+                    stored.add(n.args[1].value if isinstance(n.args[1], ast.Constant) else "*")
+        repo.__dict__["_stored_attr_names"] = stored
+    out: Dict[str, int] = {}
+    try:
+        mro = repo.mro(ci)
+        subs = repo.subclasses(ci.name) if not ci.outer else [c for c in repo.all_classes() if c is not ci and ci in repo.mro(c)]
+    except Exception:
+        cache[key] = out
+        return out
+    seen = set()
+    for c in mro:
+        for nm, expr in c.assigns.items():
+            if nm in seen:
+                continue
+            seen.add(nm)
+            if nm.upper() != nm or not any(ch.isalpha() for ch in nm) or nm in stored:
+                continue
+            if any(nm in k.assigns or nm in k.methods or nm in k.getters for k in subs if k is not c):
+                continue
+            try:
+                v = repo.fold(expr, ci=c)
+            except Exception:
+                continue
+            if isinstance(v, int) and not isinstance(v, bool):
+                out[nm] = v
+        seen |= set(c.methods) | set(c.getters)
+    cache[key] = out
+    return out
+
+
+def desugar_walrus(fn: ast.FunctionDef) -> ast.FunctionDef:
+    """`if (x := E) …:` reads as `x = E` followed by `if x …:` when the assignment expression is evaluated first and
+    unconditionally in the test (the test itself, the left operand of a comparison, the first operand of and/or, under `not`);
+    likewise in the value of an assignment / expression statement / return.  `while` tests and comprehensions are left alone."""
+    if not any(isinstance(n, ast.NamedExpr) for n in ast.walk(fn)):
+        return fn
+    new = copy.deepcopy(fn)
+
+    def first_evaluated(e: ast.expr) -> Optional[ast.NamedExpr]:
+        """the NamedExpr evaluated first and always when e is evaluated, with nothing evaluated before it."""
+        if isinstance(e, ast.NamedExpr):
+            return e if isinstance(e.target, ast.Name) and not any(isinstance(x, ast.NamedExpr) for x in ast.walk(e.value)) else None
+        if isinstance(e, ast.Compare):
+            return first_evaluated(e.left)
+        if isinstance(e, ast.BoolOp):
+            return first_evaluated(e.values[0])
+        if isinstance(e, ast.UnaryOp):
+            return first_evaluated(e.operand)
+        if isinstance(e, ast.BinOp):
+            return first_evaluated(e.left)
+        if isinstance(e, ast.Call) and isinstance(e.func, ast.Name) and e.args and not isinstance(e.args[0], ast.Starred):
+            return first_evaluated(e.args[0])
+        if isinstance(e, ast.Subscript):
+            return first_evaluated(e.value)
+        if isinstance(e, ast.Attribute):
+            return first_evaluated(e.value)
+        return None
+
+    class R(ast.NodeTransformer):
+        def __init__(self, target):
+            self.target = target
+
+        def visit_NamedExpr(self, node):
+            if node is self.target:
+                return ast.copy_location(ast.Name(id=node.target.id, ctx=ast.Load()), node)
+            return self.generic_visit(node)
+
+        def visit_Lambda(self, node):
+            return node
+
+    def block(stmts: List[ast.stmt]) -> List[ast.stmt]:
+        out: List[ast.stmt] = []
+        for st in stmts:
+            for _ in range(4):
+                holder = "test" if isinstance(st, ast.If) else "value" if isinstance(st, (ast.Assign, ast.Expr, ast.Return, ast.AugAssign)) else None
+                e = getattr(st, holder, None) if holder else None
+                ne = first_evaluated(e) if e is not None else None
+                if ne is None:
+                    break
+                out.append(ast.copy_location(ast.Assign(targets=[ast.Name(id=ne.target.id, ctx=ast.Store())], value=ne.value), st))
+                setattr(st, holder, R(ne).visit(e))
+            for fld in ("body", "orelse", "finalbody"):
+                sub = getattr(st, fld, None)
+                if isinstance(sub, list) and sub and isinstance(sub[0], ast.stmt) and not isinstance(st, (ast.FunctionDef, ast.ClassDef)):
+                    setattr(st, fld, block(sub))
+            if isinstance(st, ast.Try):
+                for h in st.handlers:
+                    h.body = block(h.body)
+            out.append(st)
+        return out
+    new.body = block(new.body)
+    ast.fix_missing_locations(new)
+    number(new)
+    return new
+
+
+def desugar_takewhile(fn: ast.FunctionDef) -> ast.FunctionDef:
+    """`for T in takewhile(lambda x: P(x), XS): BODY` reads as `for T in XS: if not P(T): break; BODY` (T written as an expression;
+    `(a, b)[0]` folded to `a`); `dropwhile` is not touched."""
+    if not any(isinstance(n, ast.Call) and norm(n.func).split(".")[-1] == "takewhile" for n in ast.walk(fn)):
+        return fn
+    new = copy.deepcopy(fn)
+    # `xs = takewhile(…)` bound once and read once, as the iterable of a loop: the call is read at the loop
+    from .packed import single_defs as _sd_tw
+    defs_tw = _sd_tw(new)
+    loads_tw: Dict[str, int] = {}
+    for n in ast.walk(new):
+        if isinstance(n, ast.Name) and isinstance(n.ctx, ast.Load):
+            loads_tw[n.id] = loads_tw.get(n.id, 0) + 1
+    moved: Set[str] = set()
+    for lp in [n for n in ast.walk(new) if isinstance(n, ast.For)]:
+        if isinstance(lp.iter, ast.Name) and loads_tw.get(lp.iter.id) == 1 and isinstance(defs_tw.get(lp.iter.id), ast.Call) \
+                and norm(defs_tw[lp.iter.id].func).split(".")[-1] == "takewhile":
+            moved.add(lp.iter.id)
+            lp.iter = copy.deepcopy(defs_tw[lp.iter.id])
+    if moved:
+        for n in ast.walk(new):
+            for fld in ("body", "orelse", "finalbody"):
+                sub = getattr(n, fld, None)
+                if isinstance(sub, list) and sub and isinstance(sub[0], ast.stmt):
+                    kept = [st for st in sub if not (isinstance(st, ast.Assign) and len(st.targets) == 1 and isinstance(st.targets[0], ast.Name)
+                                                     and st.targets[0].id in moved)]
+                    setattr(n, fld, kept or ([ast.Pass()] if fld == "body" else []))
+
+    def as_load(t: ast.expr) -> Optional[ast.expr]:
+        if isinstance(t, ast.Name):
+            return ast.Name(id=t.id, ctx=ast.Load())
+        if isinstance(t, (ast.Tuple, ast.List)):
+            els = [as_load(x) for x in t.elts]
+            if any(x is None for x in els):
+                return None
+            return ast.Tuple(elts=els, ctx=ast.Load())
+        return None
+
+    class Fold(ast.NodeTransformer):
+        def visit_Subscript(self, node):
+            node = self.generic_visit(node)
+            if isinstance(node.value, ast.Tuple) and isinstance(node.slice, ast.Constant) and isinstance(node.slice.value, int) \
+                    and 0 <= node.slice.value < len(node.value.elts) and not any(isinstance(x, ast.Starred) for x in node.value.elts):
+                return node.value.elts[node.slice.value]
+            return node
+    for lp in [n for n in ast.walk(new) if isinstance(n, ast.For)]:
+        it = lp.iter
+        if not (isinstance(it, ast.Call) and norm(it.func).split(".")[-1] == "takewhile" and len(it.args) == 2 and not it.keywords):
+            continue
+        pred, xs = it.args
+        if not (isinstance(pred, ast.Lambda) and len(pred.args.args) == 1 and not pred.args.defaults and not pred.args.vararg and not pred.args.kwarg):
+            continue
+        tl = as_load(lp.target)
+        if tl is None:
+            continue
+        test = Fold().visit(_Rename({pred.args.args[0].arg: tl}).visit(copy.deepcopy(pred.body)))
+        guard = ast.If(test=_negate(test), body=[ast.Break()], orelse=[])
+        ast.copy_location(guard, lp)
+        lp.iter = xs
+        lp.body = [guard] + lp.body
+    ast.fix_missing_locations(new)
+    number(new)
+    return new
+
+
+def desugar_idioms(fn: ast.FunctionDef) -> ast.FunctionDef:
+    """Exact rewrites of two spellings into the forms the rules read:
+       X + b"\\0" * (N - len(X))                       →  X.ljust(N, b"\\0")         (a negative count gives b"", as ljust does)
+       try: v = a.attr  except AttributeError: v = D   →  v = getattr(a, "attr", D)   (a a plain name)"""
+    new = None
+
+    def is_pad(e: ast.AST) -> Optional[ast.expr]:
+        if not (isinstance(e, ast.BinOp) and isinstance(e.op, ast.Add)):
+            return None
+        x, r = e.left, e.right
+        if isinstance(r, ast.BinOp) and isinstance(r.op, ast.Mult):
+            c, n = (r.left, r.right) if isinstance(r.left, ast.Constant) else (r.right, r.left)
+            if isinstance(c, ast.Constant) and isinstance(c.value, bytes) and len(c.value) == 1 and isinstance(n, ast.BinOp) and isinstance(n.op, ast.Sub) \
+                    and isinstance(n.right, ast.Call) and norm(n.right.func) == "len" and len(n.right.args) == 1 and norm(n.right.args[0]) == norm(x) \
+                    and not any(isinstance(y, ast.Call) and not (isinstance(y.func, ast.Attribute) and y.func.attr in ("encode", "decode")) for y in ast.walk(x)):
+                return ast.Call(func=ast.Attribute(value=x, attr="ljust", ctx=ast.Load()), args=[n.left, c], keywords=[])
+        return None
+
+    class P(ast.NodeTransformer):
+        def visit_BinOp(self, node):
+            node = self.generic_visit(node)
+            r = is_pad(node)
+            return ast.copy_location(r, node) if r is not None else node
+
+        def visit_Try(self, node):
+            node = self.generic_visit(node)
+            if len(node.body) == 1 and len(node.handlers) == 1 and not node.orelse and not node.finalbody:
+                b, h = node.body[0], node.handlers[0]
+                if isinstance(b, ast.Assign) and len(b.targets) == 1 and isinstance(b.targets[0], ast.Name) and isinstance(b.value, ast.Attribute) \
+                        and isinstance(b.value.value, ast.Name) and h.type is not None and norm(h.type) == "AttributeError" and h.name is None \
+                        and len(h.body) == 1 and isinstance(h.body[0], ast.Assign) and len(h.body[0].targets) == 1 \
+                        and norm(h.body[0].targets[0]) == norm(b.targets[0]) and isinstance(h.body[0].value, (ast.Name, ast.Constant, ast.Attribute)):
+                    call = ast.Call(func=ast.Name(id="getattr", ctx=ast.Load()),
+                                    args=[b.value.value, ast.Constant(value=b.value.attr), h.body[0].value], keywords=[])
+                    return ast.copy_location(ast.Assign(targets=b.targets, value=call), node)
+            return node
+    if any(isinstance(n, ast.Try) for n in ast.walk(fn)) or any(is_pad(n) is not None for n in ast.walk(fn)):
+        new = P().visit(copy.deepcopy(fn))
+        ast.fix_missing_locations(new)
+        number(new)
+    return new or fn
+
+
+def desugar_match(fn: ast.FunctionDef) -> ast.FunctionDef:
+    """`match S: case P [if G]: B …` over value / singleton / or / wildcard / capture / class patterns reads as the if-elif
+    chain it abbreviates (`S == v`, `S is None`, `… or …`, `True`, `isinstance(S, K) and …`).  The subject is evaluated once: a
+    subject that is not a plain name / attribute chain is bound to a temporary first.  Sequence and mapping patterns are not
+    desugared: such a statement stays as written."""
+    if not any(isinstance(n, ast.Match) for n in ast.walk(fn)):
+        return fn
+    new = copy.deepcopy(fn)
+    counter = [0]
+
+    class Unsupported(Exception):
+        pass
+
+    def test_of(subj: ast.expr, pat: ast.pattern, binds: List[Tuple[str, ast.expr]]) -> Optional[ast.expr]:
+        """the test (None = always true) for `subj` matching `pat`; captures are appended to binds."""
+        if isinstance(pat, ast.MatchValue):
+            return ast.Compare(left=copy.deepcopy(subj), ops=[ast.Eq()], comparators=[copy.deepcopy(pat.value)])
+        if isinstance(pat, ast.MatchSingleton):
+            return ast.Compare(left=copy.deepcopy(subj), ops=[ast.Is()], comparators=[ast.Constant(value=pat.value)])
+        if isinstance(pat, ast.MatchAs):
+            t = None if pat.pattern is None else test_of(subj, pat.pattern, binds)
+            if pat.name is not None:
+                binds.append((pat.name, copy.deepcopy(subj)))
+            return t
+        if isinstance(pat, ast.MatchOr):
+            sub_binds: List[Tuple[str, ast.expr]] = []
+            tests = [test_of(subj, p_, sub_binds) for p_ in pat.patterns]
+            if sub_binds:
+                raise Unsupported("captures inside an or-pattern")
+            if any(t is None for t in tests):
+                return None
+            return ast.BoolOp(op=ast.Or(), values=tests)
+        if isinstance(pat, ast.MatchClass) and not pat.patterns:
+            tests: List[ast.expr] = [ast.Call(func=ast.Name(id="isinstance", ctx=ast.Load()), args=[copy.deepcopy(subj), copy.deepcopy(pat.cls)], keywords=[])]
+            for attr, sub in zip(pat.kwd_attrs, pat.kwd_patterns):
+                t = test_of(ast.Attribute(value=copy.deepcopy(subj), attr=attr, ctx=ast.Load()), sub, binds)
+                if t is not None:
+                    tests.append(t)
+            return tests[0] if len(tests) == 1 else ast.BoolOp(op=ast.And(), values=tests)
+        raise Unsupported(type(pat).__name__)
+
+    def simple(e: ast.expr) -> bool:
+        return isinstance(e, ast.Name) or (isinstance(e, ast.Attribute) and simple(e.value))
+
+    def rewrite(m: ast.Match) -> Optional[List[ast.stmt]]:
+        pre: List[ast.stmt] = []
+        subj = m.subject
+        if not simple(subj):
+            counter[0] += 1
+            nm = f"__match{counter[0]}"
+            pre.append(ast.copy_location(ast.Assign(targets=[ast.Name(id=nm, ctx=ast.Store())], value=subj), m))
+            subj = ast.Name(id=nm, ctx=ast.Load())
+        # the chain is built from the last case backwards
+        chain: List[ast.stmt] = []
+        try:
+            for case in reversed(m.cases):
+                binds: List[Tuple[str, ast.expr]] = []
+                t = test_of(subj, case.pattern, binds)
+                body = [ast.copy_location(ast.Assign(targets=[ast.Name(id=n_, ctx=ast.Store())], value=v_), m) for n_, v_ in binds] + block(case.body)
+                if case.guard is not None:
+                    if binds:
+                        # the guard may read the captures, which are bound only in the body here: substitute them
+                        g = _Rename({n_: v_ for n_, v_ in binds}).visit(copy.deepcopy(case.guard))
+                    else:
+                        g = case.guard
+                    t = g if t is None else ast.BoolOp(op=ast.And(), values=[t, g])
+                if t is None:
+                    chain = body               # irrefutable: everything after it is unreachable
+                else:
+                    chain = [ast.copy_location(ast.If(test=t, body=body, orelse=chain), case.pattern)]
+        except Unsupported:
+            return None
+        return pre + chain
+
+    def block(stmts: List[ast.stmt]) -> List[ast.stmt]:
+        out: List[ast.stmt] = []
+        for st in stmts:
+            if isinstance(st, ast.Match):
+                r = rewrite(st)
+                if r is not None:
+                    out.extend(r)
+                    continue
+                for case in st.cases:
+                    case.body = block(case.body)
+                out.append(st)
+                continue
+            for fld in ("body", "orelse", "finalbody"):
+                sub = getattr(st, fld, None)
+                if isinstance(sub, list) and sub and isinstance(sub[0], ast.stmt) and not isinstance(st, (ast.ClassDef,)):
+                    setattr(st, fld, block(sub))
+            if isinstance(st, ast.Try):
+                for h in st.handlers:
+                    h.body = block(h.body)
+            out.append(st)
+        return out or [ast.Pass()]
+    new.body = block(new.body)
+    ast.fix_missing_locations(new)
+    number(new)
+    return new
 
 
 def normalize(repo: Repo, ci: Optional[ClassInfo], fn: ast.FunctionDef, sf: Optional[SourceFile] = None, aliases: bool = False, **kw) -> ast.FunctionDef:
     """flatten, then unroll (and, on request, expand attribute-chain aliases): the form in which rules read a function."""
     out = _flatten_only(repo, ci, fn, sf, **kw)
+    if any(isinstance(n, ast.Match) for n in ast.walk(out)):
+        out = _flatten_only(repo, ci, desugar_match(out), sf, **kw)
+    out = desugar_walrus(out)
+    out = desugar_idioms(out)
+    out = desugar_takewhile(out)
     if any(isinstance(n, ast.Call) and isinstance(n.func, ast.Call) and norm(n.func.func).split(".")[-1] in ("itemgetter", "attrgetter") for n in ast.walk(out)):
         out = desugar_getters(out)
     if any(isinstance(n, ast.Call) and norm(n.func).split(".")[-1] == "iter_unpack" for n in ast.walk(out)):
@@ -1698,18 +2329,25 @@ def normalize(repo: Repo, ci: Optional[ClassInfo], fn: ast.FunctionDef, sf: Opti
             out = desugar_genexp_loops(out)
         except Exception:
             pass
-    if any(isinstance(n, ast.Attribute) and n.attr in ("pack", "unpack", "unpack_from") for n in ast.walk(out)):
+    if any(isinstance(n, ast.Attribute) and n.attr in ("pack", "unpack", "unpack_from") for n in ast.walk(out)) or \
+            any(isinstance(n, ast.Call) and isinstance(n.func, ast.Name) and n.func.id == "unpack_from" for n in ast.walk(out)):
         try:
             out = desugar_structs(repo, ci, sf, out)         # before unrolling: zip(FIELDS, CODEC.unpack(data)) is then recognised
         except Exception:
             pass
     out = unroll(out, repo, ci, sf)
+    if any(isinstance(n, ast.For) and isinstance(n.iter, ast.Name) for n in ast.walk(out)) and \
+            any(isinstance(n, (ast.GeneratorExp, ast.ListComp)) for n in ast.walk(out)):
+        try:
+            out = desugar_genexp_loops(out)            # loops that unrolling wrote out may iterate a once-bound generator expression
+        except Exception:
+            pass
     # unrolling a table of (tag, encoder, attribute) rows reveals calls of private helpers: read those through as well
     if any(isinstance(n, ast.Assign) and isinstance(n.value, ast.IfExp) for n in ast.walk(out)):
         out = split_conditional_callee(out)
     again = _flatten_only(repo, ci, out, sf, **kw)
     if ast.dump(again) != ast.dump(out):
-        out = unroll(again, repo, ci, sf)
+        out = unroll(desugar_walrus(again), repo, ci, sf)
     if aliases:
         changed = False
         for _ in range(3):          # project = self.object; modules = project.modules
@@ -1747,6 +2385,33 @@ def normalize(repo: Repo, ci: Optional[ClassInfo], fn: ast.FunctionDef, sf: Opti
                 out = _Rename(env).visit(out)
                 ast.fix_missing_locations(out)
                 number(out)
+    if ci is not None and FOLD_NAMED_INTS:
+        cconsts = _class_int_constants(repo, ci)
+        if cconsts and any(isinstance(n, ast.Attribute) and n.attr in cconsts for n in ast.walk(out)):
+            first = out.args.args[0].arg if out.args.args else None
+            rebound = {n.id for n in ast.walk(out) if isinstance(n, ast.Name) and isinstance(n.ctx, (ast.Store, ast.Del))}
+
+            class _CC(ast.NodeTransformer):
+                def visit_Attribute(self, node):
+                    node = self.generic_visit(node)
+                    if isinstance(node.ctx, ast.Load) and node.attr in cconsts and isinstance(node.value, ast.Name) and node.value.id not in rebound \
+                            and (node.value.id in ("self", "cls") and node.value.id == first or node.value.id == ci.name):
+                        return ast.copy_location(ast.Constant(value=cconsts[node.attr]), node)
+                    return node
+            out = _CC().visit(out)
+            ast.fix_missing_locations(out)
+            number(out)
+    if any(isinstance(n, ast.Assign) and isinstance(n.value, ast.Call) and isinstance(n.value.func, (ast.Name, ast.Attribute))
+           and norm(n.value.func).split(".")[-1][:1].isupper() or (isinstance(n, ast.Assign) and isinstance(n.value, ast.Call)
+                                                                   and norm(n.value.func).split(".")[-1].startswith("_")) for n in ast.walk(out)):
+        try:
+            out = desugar_records(repo, ci, the_sf, out)
+        except Exception:
+            pass
+    try:
+        out = fold_record_constants(repo, ci, the_sf, copy.deepcopy(out))
+    except Exception:
+        pass
     const_rows_unpacked = resolve_const_rows(repo, ci, the_sf, out)
     if any(isinstance(n, ast.Assign) and len(n.targets) == 1 and (
             (isinstance(n.targets[0], (ast.Tuple, ast.List)) and (isinstance(n.value, (ast.Tuple, ast.List))
@@ -1756,10 +2421,16 @@ def normalize(repo: Repo, ci: Optional[ClassInfo], fn: ast.FunctionDef, sf: Opti
             or (isinstance(n.targets[0], (ast.Tuple, ast.List)) and isinstance(n.value, ast.Name))
             or (isinstance(n.targets[0], ast.Name) and isinstance(n.value, ast.Tuple))) for n in ast.walk(out)):
         out = split_tuple_assigns(out)
-        if const_rows_unpacked:
+    if any(isinstance(n, ast.Assign) and len(n.targets) == 1 and isinstance(n.targets[0], ast.Name) and isinstance(n.value, ast.Constant)
+           and isinstance(n.value.value, int) and not isinstance(n.value.value, bool) for n in ast.walk(out)):
+        # `first = 20; step = 4` (bound once, before any read): the literal is read at the uses
+        try:
             out = propagate_int_constants(out)
+        except Exception:
+            pass
     if any(isinstance(n, ast.Attribute) and n.attr in ("pack", "unpack", "unpack_from", "size") for n in ast.walk(out)) or \
-            any(isinstance(n, ast.Call) and isinstance(n.func, (ast.Name, ast.Subscript)) for n in ast.walk(out)):
+            any(isinstance(n, ast.Call) and isinstance(n.func, (ast.Name, ast.Subscript, ast.Call)) for n in ast.walk(out)):
+        # (also the module-level unpack_from(F, data, off))
         try:
             out = desugar_structs(repo, ci, sf, out)
         except Exception:
@@ -2251,6 +2922,170 @@ def definition_of(repo: Repo, ci: Optional[ClassInfo], sf: Optional[SourceFile],
     return None
 
 
+def record_fields(repo: Repo, ci: Optional[ClassInfo], sf: Optional[SourceFile], ctor: ast.expr) -> Optional[List[str]]:
+    """Field names, in positional order, of the record type `ctor` names: `X = namedtuple("X", "a b" | ["a", "b"])` at module level,
+    or `class X(NamedTuple)` / `@dataclass class X` with annotated fields and no `__init__` / `__new__` of its own."""
+    if not isinstance(ctor, (ast.Name, ast.Attribute)):
+        return None
+    d = definition_of(repo, ci, sf, ctor)
+    if isinstance(d, ast.Call) and norm(d.func).split(".")[-1] == "namedtuple" and len(d.args) >= 2 and not any(k.arg in ("rename", "defaults") for k in d.keywords):
+        f = d.args[1]
+        if isinstance(f, ast.Constant) and isinstance(f.value, str):
+            return f.value.replace(",", " ").split()
+        if isinstance(f, (ast.List, ast.Tuple)) and all(isinstance(x, ast.Constant) and isinstance(x.value, str) for x in f.elts):
+            return [x.value for x in f.elts]
+        return None
+    k = repo.class_of_expr(ctor, ci, sf) if sf is not None or ci is not None else None
+    if k is not None and not ({"__init__", "__new__", "__post_init__"} & set(k.methods)):
+        bases = [norm(b).split(".")[-1] for b in k.node.bases]
+        decos = [norm(x.func if isinstance(x, ast.Call) else x).split(".")[-1] for x in k.node.decorator_list]
+        if bases == ["NamedTuple"] or (decos == ["dataclass"] and not bases):
+            fields = [st.target.id for st in k.node.body if isinstance(st, ast.AnnAssign) and isinstance(st.target, ast.Name)
+                      and "ClassVar" not in norm(st.annotation)]
+            return fields or None
+    return None
+
+
+def record_constant(repo: Repo, ci: Optional[ClassInfo], sf: Optional[SourceFile], e: ast.expr, root: Optional[ast.AST] = None) -> Optional[ast.Call]:
+    """The constructor call `R(a, b=…)` with constant arguments that the class-level / module-level name `e` (or a local of `root`
+    bound once to such a name) is bound to, R a record type (see record_fields); None otherwise."""
+    sf = sf or (ci.file if ci is not None else None)
+    if isinstance(e, ast.Name) and root is not None:
+        from .packed import single_defs
+        try:
+            d0 = single_defs(root).get(e.id)
+        except Exception:
+            d0 = None
+        if isinstance(d0, (ast.Name, ast.Attribute)) and norm(d0) != norm(e):
+            return record_constant(repo, ci, sf, d0, None)
+    if not isinstance(e, (ast.Name, ast.Attribute)):
+        return None
+    try:
+        d = definition_of(repo, ci, sf, e)
+    except Exception:
+        d = None
+    if not (isinstance(d, ast.Call) and isinstance(d.func, (ast.Name, ast.Attribute)) and not any(isinstance(a, ast.Starred) for a in d.args)
+            and not any(k.arg is None for k in d.keywords)):
+        return None
+    owner_ci = ci
+    fields = record_fields(repo, owner_ci, sf, d.func)
+    if not fields or len(d.args) + len(d.keywords) > len(fields):
+        return None
+    try:
+        for a in list(d.args) + [k.value for k in d.keywords]:
+            v = repo.fold(a, ci=ci, sf=sf)
+            if not (v is None or isinstance(v, (int, str, bytes, bool, float))):
+                return None
+    except Exception:
+        return None
+    return d
+
+
+def fold_record_constants(repo: Repo, ci: Optional[ClassInfo], sf: Optional[SourceFile], fn: ast.FunctionDef) -> ast.FunctionDef:
+    """`self._LEVEL.mask` with `_LEVEL = _BitField(shift=0, mask=31)` a record constant reads as 31 (also through a local bound once
+    to the constant)."""
+    sf = sf or (ci.file if ci is not None else None)
+    hits = []
+    for n in ast.walk(fn):
+        if isinstance(n, ast.Attribute) and isinstance(n.ctx, ast.Load) and isinstance(n.value, (ast.Name, ast.Attribute)) and not n.attr.startswith("__"):
+            if isinstance(n.value, ast.Name) and n.value.id in ("self", "cls"):
+                continue
+            c = record_constant(repo, ci, sf, n.value, fn)
+            if c is None:
+                continue
+            fields = record_fields(repo, ci, sf, c.func) or []
+            m = dict(zip(fields, c.args))
+            m.update({k.arg: k.value for k in c.keywords})
+            if n.attr in m:
+                try:
+                    hits.append((n, repo.fold(m[n.attr], ci=ci, sf=sf)))
+                except Exception:
+                    pass
+    if not hits:
+        return fn
+    by_pos = {(h[0].lineno, h[0].col_offset, norm(h[0])): h[1] for h in hits if hasattr(h[0], "lineno")}
+    ids = {id(h[0]): h[1] for h in hits}
+
+    class F(ast.NodeTransformer):
+        def visit_Attribute(self, node):
+            if id(node) in ids:
+                return ast.copy_location(ast.Constant(value=ids[id(node)]), node)
+            return self.generic_visit(node)
+    new = F().visit(fn)          # in place: the nodes were identified by identity
+    ast.fix_missing_locations(new)
+    number(new)
+    return new
+
+
+def desugar_records(repo: Repo, ci: Optional[ClassInfo], sf: Optional[SourceFile], fn: ast.FunctionDef) -> ast.FunctionDef:
+    """A local bound once to a record built in place (`codec = _RawCodec(t, encode=E1, decode=E2)`, namedtuple / NamedTuple /
+    dataclass) and used only through its fields reads as those fields: `codec.decode(x)` is `E2(x)`.  The field expressions must
+    be pure (names, attributes, constants, getattr) over names that are not rebound in the function."""
+    from .packed import single_defs
+    sf = sf or (ci.file if ci is not None else None)
+    defs = single_defs(fn)
+    stores: Dict[str, int] = {}
+    for n in ast.walk(fn):
+        if isinstance(n, ast.Name) and isinstance(n.ctx, (ast.Store, ast.Del)):
+            stores[n.id] = stores.get(n.id, 0) + 1
+    params = {a.arg for a in fn.args.args + fn.args.kwonlyargs}
+
+    def pure(e: ast.expr) -> bool:
+        for x in ast.walk(e):
+            if isinstance(x, ast.Call) and norm(x.func) != "getattr" and not (
+                    isinstance(x.func, ast.Attribute) and not x.keywords and all(isinstance(a, (ast.Name, ast.Constant)) for a in x.args)):
+                return False            # (a query call on an object — `c.instance_value_type(self)` — is read as repeatable)
+            if isinstance(x, (ast.Lambda, ast.ListComp, ast.GeneratorExp, ast.SetComp, ast.DictComp, ast.Yield, ast.YieldFrom, ast.Await, ast.NamedExpr, ast.Starred)):
+                return False
+            if isinstance(x, ast.Name) and isinstance(x.ctx, ast.Load) and stores.get(x.id, 0) > 1:
+                return False
+            if isinstance(x, ast.Name) and isinstance(x.ctx, ast.Load) and x.id in params and stores.get(x.id, 0) > 0:
+                return False
+        return True
+    records: Dict[str, Dict[str, ast.expr]] = {}
+    for nm, v in defs.items():
+        seen = 0
+        while isinstance(v, ast.Name) and v.id in defs and seen < 4:
+            v = defs[v.id]
+            seen += 1
+        if not (isinstance(v, ast.Call) and isinstance(v.func, (ast.Name, ast.Attribute)) and not any(isinstance(a, ast.Starred) for a in v.args)
+                and not any(k.arg is None for k in v.keywords)):
+            continue
+        fields = record_fields(repo, ci, sf, v.func)
+        if not fields or len(v.args) + len(v.keywords) != len(fields):
+            continue
+        m: Dict[str, ast.expr] = dict(zip(fields, v.args))
+        for k in v.keywords:
+            if k.arg not in fields or k.arg in m:
+                m = {}
+                break
+            m[k.arg] = k.value
+        if len(m) != len(fields) or not all(pure(x) for x in m.values()):
+            continue
+        # used only as `nm.field`
+        uses = [n for n in ast.walk(fn) if isinstance(n, ast.Name) and n.id == nm and isinstance(n.ctx, ast.Load)]
+        attr_uses = [n for n in ast.walk(fn) if isinstance(n, ast.Attribute) and isinstance(n.value, ast.Name) and n.value.id == nm
+                     and isinstance(n.ctx, ast.Load) and n.attr in m]
+        copies = [k2 for k2, v2 in defs.items() if isinstance(v2, ast.Name) and v2.id == nm]
+        if len(uses) != len(attr_uses) + len(copies):
+            continue
+        records[nm] = m
+    if not records:
+        return fn
+    new = copy.deepcopy(fn)
+
+    class R(ast.NodeTransformer):
+        def visit_Attribute(self, node):
+            node = self.generic_visit(node)
+            if isinstance(node.value, ast.Name) and node.value.id in records and isinstance(node.ctx, ast.Load) and node.attr in records[node.value.id]:
+                return ast.copy_location(copy.deepcopy(records[node.value.id][node.attr]), node)
+            return node
+    new = R().visit(new)
+    ast.fix_missing_locations(new)
+    number(new)
+    return new
+
+
 def desugar_structs(repo: Repo, ci: Optional[ClassInfo], sf: Optional[SourceFile], fn: ast.FunctionDef) -> ast.FunctionDef:
     """`CODEC.pack(a, b)` with `CODEC = Struct("<HH")` (module / class constant, a once-bound local, or `Struct(f).pack` in
     place) reads as `pack("<HH", a, b)`; likewise `unpack`, `unpack_from(data, off)` (= `unpack(f, data[off:off + size])`) and
@@ -2319,10 +3154,39 @@ def desugar_structs(repo: Repo, ci: Optional[ClassInfo], sf: Optional[SourceFile
         except Exception:
             return ast.Call(func=ast.Name(id="calcsize", ctx=ast.Load()), args=[copy.deepcopy(fmt)], keywords=[])
 
+    def partial_of(v: ast.expr, depth: int = 0) -> Optional[ast.Call]:
+        """the `partial(F, a, …)` call that `v` denotes (in place, a once-bound local, or a module / class constant whose
+        bound arguments are constants)."""
+        if depth > 4:
+            return None
+        if isinstance(v, ast.Call) and norm(v.func).split(".")[-1] == "partial" and v.args and isinstance(v.args[0], (ast.Name, ast.Attribute)) \
+                and not any(isinstance(a, ast.Starred) for a in v.args) and not any(k.arg is None for k in v.keywords):
+            return v
+        if isinstance(v, ast.Name) and v.id in defs:
+            return partial_of(defs[v.id], depth + 1)
+        if isinstance(v, (ast.Name, ast.Attribute)):
+            d = definition_of(repo, ci, sf, v)
+            if d is not None:
+                c = partial_of(d, depth + 1)
+                if c is not None and all(isinstance(a, ast.Constant) for a in c.args[1:]) and all(isinstance(k.value, ast.Constant) for k in c.keywords) \
+                        and isinstance(c.args[0], ast.Name):
+                    return c
+        return None
+
     class X(ast.NodeTransformer):
         def visit_Call(self, node):
             node = self.generic_visit(node)
+            pc = partial_of(node.func) if isinstance(node.func, (ast.Call, ast.Name, ast.Attribute)) else None
+            if pc is not None:
+                # partial(F, a)(b) is F(a, b)
+                node = ast.copy_location(ast.Call(func=copy.deepcopy(pc.args[0]), args=[copy.deepcopy(a) for a in pc.args[1:]] + node.args,
+                                                  keywords=[copy.deepcopy(k) for k in pc.keywords] + node.keywords), node)
             bm = bound_method(node.func) if isinstance(node.func, (ast.Attribute, ast.Name, ast.Subscript)) else None
+            if bm is None and norm(node.func) in ("unpack_from", "struct.unpack_from") and 2 <= len(node.args) <= 3 and not node.keywords \
+                    and not any(isinstance(a, ast.Starred) for a in node.args):
+                # the module-level function: unpack_from(F, data, off) is unpack(F, data[off:off + calcsize(F)])
+                bm = (node.args[0], "unpack_from")
+                node = ast.copy_location(ast.Call(func=node.func, args=node.args[1:], keywords=[]), node)
             if bm is None:
                 return node
             fmt, meth = bm
@@ -2403,6 +3267,9 @@ def split_tuple_assigns(fn: ast.FunctionDef) -> ast.FunctionDef:
             if len(node.targets) == 1 and isinstance(node.targets[0], (ast.Tuple, ast.List)) and len(node.targets[0].elts) == 2 \
                     and isinstance(node.value, ast.Call) and norm(node.value.func) == "divmod" and len(node.value.args) == 2 \
                     and all(isinstance(a, (ast.Name, ast.Attribute, ast.Constant)) or
+                            (isinstance(a, (ast.BinOp, ast.UnaryOp)) and all(isinstance(x, (ast.Name, ast.Attribute, ast.Constant, ast.BinOp, ast.UnaryOp,
+                                                                                             ast.operator, ast.unaryop, ast.expr_context))
+                                                                             for x in ast.walk(a))) or
                             (isinstance(a, ast.Subscript) and isinstance(a.value, ast.Call) and norm(a.value.func) in ("unpack", "struct.unpack")
                              and not any(isinstance(x, ast.Call) for y in a.value.args for x in ast.walk(y))) for a in node.value.args) \
                     and not ({norm(t) for t in node.targets[0].elts} & {norm(a) for a in node.value.args}):
@@ -2941,6 +3808,149 @@ def propagate_int_constants(fn: ast.FunctionDef) -> ast.FunctionDef:
     for n in ast.walk(new):
         if isinstance(getattr(n, "body", None), list) and not n.body and not isinstance(n, ast.Module):
             n.body = [ast.Pass()]
+    ast.fix_missing_locations(new)
+    number(new)
+    return new
+
+
+def specialize(fn: ast.FunctionDef, bindings: Dict[str, Any]) -> ast.FunctionDef:
+    """The function with some parameters fixed to constants (`loading=True`), partially evaluated: a flow-sensitive constant
+    environment over the locals (None / bool / int / str constants only) is carried through the statements in order; a test that
+    is decided in that environment selects its branch (`and` / `or` / `not` / `is` / comparisons / conditional expressions are
+    decided with short-circuiting: `not loading and X` is False whatever X is — tests are taken to be free of side effects);
+    an assignment of a decided value updates the environment, any other assignment (and every name bound in a loop, a with, a try
+    or an undecided branch) removes the name from it.  Code that cannot run under the bindings is dropped; the rest is unchanged.
+    Sound as a description of the calls with those arguments, since only unreachable code is removed."""
+    new = copy.deepcopy(fn)
+    UNK = object()
+
+    def ev(e: ast.expr, env: Dict[str, Any]):
+        if isinstance(e, ast.Constant) and (e.value is None or isinstance(e.value, (bool, int, str))):
+            return e.value
+        if isinstance(e, ast.Name):
+            return env.get(e.id, UNK)
+        if isinstance(e, ast.UnaryOp) and isinstance(e.op, ast.Not):
+            v = ev(e.operand, env)
+            return UNK if v is UNK else (not v)
+        if isinstance(e, ast.BoolOp):
+            vals = [ev(v, env) for v in e.values]
+            if isinstance(e.op, ast.And):
+                for v in vals:
+                    if v is UNK:
+                        break
+                    if not v:
+                        return v
+                else:
+                    return vals[-1]
+                # an operand known false anywhere makes the conjunction false (operands are pure)
+                if any(v is not UNK and not v for v in vals):
+                    return False
+                return UNK
+            for v in vals:
+                if v is UNK:
+                    break
+                if v:
+                    return v
+            else:
+                return vals[-1]
+            if any(v is not UNK and v for v in vals):
+                return True
+            return UNK
+        if isinstance(e, ast.IfExp):
+            t = ev(e.test, env)
+            if t is UNK:
+                a, b = ev(e.body, env), ev(e.orelse, env)
+                return a if (a is not UNK and b is not UNK and type(a) is type(b) and a == b) else UNK
+            return ev(e.body if t else e.orelse, env)
+        if isinstance(e, ast.Compare) and len(e.ops) == 1:
+            a, b = ev(e.left, env), ev(e.comparators[0], env)
+            if a is UNK or b is UNK:
+                return UNK
+            op = e.ops[0]
+            try:
+                if isinstance(op, ast.Is):
+                    return a is b if (a is None or b is None or isinstance(a, bool) or isinstance(b, bool)) else UNK
+                if isinstance(op, ast.IsNot):
+                    return a is not b if (a is None or b is None or isinstance(a, bool) or isinstance(b, bool)) else UNK
+                if isinstance(op, ast.Eq):
+                    return a == b
+                if isinstance(op, ast.NotEq):
+                    return a != b
+                if isinstance(op, ast.Lt):
+                    return a < b
+                if isinstance(op, ast.LtE):
+                    return a <= b
+                if isinstance(op, ast.Gt):
+                    return a > b
+                if isinstance(op, ast.GtE):
+                    return a >= b
+            except TypeError:
+                return UNK
+        return UNK
+
+    def stored(stmts) -> Set[str]:
+        return {n.id for st in stmts for n in ast.walk(st) if isinstance(n, ast.Name) and isinstance(n.ctx, (ast.Store, ast.Del))}
+
+    def terminates(stmts) -> bool:
+        return _always_returns(stmts) or any(isinstance(st, (ast.Continue, ast.Break)) for st in stmts[-1:])
+
+    def block(stmts: List[ast.stmt], env: Dict[str, Any]) -> List[ast.stmt]:
+        out: List[ast.stmt] = []
+        for st in stmts:
+            if isinstance(st, ast.If):
+                t = ev(st.test, env)
+                if t is not UNK:
+                    out.extend(block(st.body if t else st.orelse, env))
+                    if out and terminates(out):
+                        break
+                    continue
+                ea, eb = dict(env), dict(env)
+                st.body = block(st.body, ea) or [ast.Pass()]
+                st.orelse = block(st.orelse, eb)
+                a_ends, b_ends = terminates(st.body), bool(st.orelse) and terminates(st.orelse)
+                env.clear()
+                if a_ends and not b_ends:
+                    env.update(eb)
+                elif b_ends and not a_ends:
+                    env.update(ea)
+                else:
+                    env.update({k: v for k, v in ea.items() if k in eb and type(eb[k]) is type(v) and eb[k] == v})
+                out.append(st)
+                continue
+            if isinstance(st, ast.Assign) and len(st.targets) == 1 and isinstance(st.targets[0], ast.Name):
+                v = ev(st.value, env)
+                # conditional expressions decided under the environment are written out
+                if isinstance(st.value, ast.IfExp):
+                    t = ev(st.value.test, env)
+                    if t is not UNK:
+                        st.value = st.value.body if t else st.value.orelse
+                if v is UNK:
+                    env.pop(st.targets[0].id, None)
+                else:
+                    env[st.targets[0].id] = v
+                out.append(st)
+                continue
+            if isinstance(st, (ast.For, ast.While, ast.With, ast.Try, ast.Match, ast.FunctionDef, ast.ClassDef, ast.AsyncFor, ast.AsyncWith)):
+                for k in stored([st]):
+                    env.pop(k, None)
+                # bodies are specialised under what is still known (names bound inside were dropped first)
+                inner = dict(env)
+                for fld in ("body", "orelse", "finalbody"):
+                    sub = getattr(st, fld, None)
+                    if isinstance(sub, list) and sub and isinstance(sub[0], ast.stmt) and not isinstance(st, (ast.FunctionDef, ast.ClassDef, ast.Match)):
+                        setattr(st, fld, block(sub, dict(inner)) or ([ast.Pass()] if fld == "body" else []))
+                if isinstance(st, ast.Try):
+                    for h in st.handlers:
+                        h.body = block(h.body, dict(inner)) or [ast.Pass()]
+                out.append(st)
+                continue
+            for k in stored([st]):
+                env.pop(k, None)
+            out.append(st)
+            if isinstance(st, (ast.Return, ast.Raise, ast.Continue, ast.Break)):
+                break
+        return out
+    new.body = block(new.body, dict(bindings)) or [ast.Pass()]
     ast.fix_missing_locations(new)
     number(new)
     return new
